@@ -673,7 +673,6 @@ pub fn run_case(case: &Case) -> Option<Outcome> {
     let mut acked: Vec<Acked> = Vec::new();
     let mut worker_deleted: BTreeSet<String> = BTreeSet::new();
     let own_count = |files: &BTreeMap<String, FileData>| files.keys().filter(|n| ref_member(&cfg.prefix, &cfg.ext, n).is_some()).count();
-    let initial_own = own_count(&fs.0.lock().unwrap().files);
     // the file the worker holds, as far as the outside can tell: the file of the last successful batch
     let mut active_name: Option<String> = None;
     let mut creation_order: Vec<String> = Vec::new();
@@ -827,8 +826,9 @@ pub fn run_case(case: &Case) -> Option<Outcome> {
                 }
                 let target: Option<String> = changed.first().map(|n| (*n).clone()).or_else(|| created.first().map(|n| (*n).clone())).or_else(|| opened.first().map(|n| (*n).clone())).or(active_name.clone());
                 // C11 retention
-                let strict = !retention_faulted && initial_own <= cfg.max_files;
-                if cfg.max_files >= 1 && (strict || !created.is_empty()) && !retention_faulted && own_count(&after) > cfg.max_files {
+                // (a set that starts above the limit and is reused is only pruned at its next roll: known finding
+                // `reuse-oversize`; generated directories start within the limit)
+                if cfg.max_files >= 1 && !retention_faulted && own_count(&after) > cfg.max_files {
                     fail(&mut fails, "retention");
                 }
                 for d in &deleted {
